@@ -2,6 +2,7 @@ package checks
 
 import (
 	"fmt"
+	"git.defalsify.org/vise.git/state"
 	"io"
 	"os"
 	"path/filepath"
@@ -220,6 +221,9 @@ func runC19(c *vk.Ctx) {
 				sid = fmt.Sprintf("ussd-gateway-eu-west-1-session-%04d", j)
 			}
 			cfg := genConfig(r, a, sid)
+			// a third of the rounds run with the engine's debug features on (state flag names from the process-wide
+			// state.FlagDebugger registry in every state string, engine.SimpleDebug after every execution)
+			cfg.Debug = i%3 == 2
 			h := a.History(r, r.Range(3, 14))
 			for x := range h {
 				if x > 0 && r.Chance(1, 12) {
@@ -240,6 +244,13 @@ func runC19(c *vk.Ctx) {
 			}
 		}
 		c.Count("input_validators_registered", 1)
+		if i%3 == 2 {
+			// flag names are registered before the sessions start, as the examples do
+			for f := uint32(8); f < 8+a.FlagCount; f += 2 { // every other flag stays unregistered
+				state.FlagDebugger.Register(f, fmt.Sprintf("USERFLAG%d_%d", f, i))
+			}
+			c.Count("rounds_with_debug_features", 1)
+		}
 		c.Begin(key)
 		before := atomic.LoadInt64(&c19Switches)
 		atomic.StoreInt64(&c19Last, -1)
